@@ -1,6 +1,8 @@
 package checks
 
 import (
+	"unicode/utf8"
+
 	"visim/app"
 	"visim/core"
 	"visim/examples"
@@ -62,7 +64,9 @@ func runC07(c *core.Ctx) *core.Outcome {
 		cfg.FlagCount = ex.FlagCount + uint32(t.Int(2))
 		o.Probes["example_app"]++
 	} else {
-		a = app.Generate(t, fullProfile(t, cfg.FlagCount))
+		prof := fullProfile(t, cfg.FlagCount)
+		prof.BadUTF8 = t.Chance(1, 10) // results are byte strings to the VM: some are not valid UTF-8
+		a = app.Generate(t, prof)
 		if err := a.Validate(); err != nil {
 			panic("generator produced ill-formed app: " + err.Error())
 		}
@@ -98,6 +102,7 @@ func runC07(c *core.Ctx) *core.Outcome {
 		o.Probes["db_resource_stack"]++
 	}
 	var inputs [][]byte
+	badSaved := false
 	okReq := 0
 	restartsWithState := 0
 	for i := 0; i < nreq; i++ {
@@ -140,14 +145,25 @@ func runC07(c *core.Ctx) *core.Outcome {
 			break
 		}
 		a1, a2, a3 := stepSig(sl), stepSig(sp), stepSig(sm)
+		var attrs map[string]string
+		if badSaved {
+			// what the session held when it was saved after an earlier request included a value that is not valid UTF-8
+			attrs = map[string]string{"cause": "non-utf8-value-in-saved-session"}
+		}
+		if nonUTF8Cached(L) {
+			badSaved = true // sticky: the persisted twins may have restarted silently at any later load
+		}
+		if badSaved {
+			o.Probes["request_leaving_non_utf8_value_in_cache"]++
+		}
 		if a1 != a2 {
-			o.Fail("twin-diverge:long-lived/persisted", i, nil,
+			o.Fail("twin-diverge:long-lived/persisted", i, attrs,
 				"request %d input %s: long-lived (cont=%v execErr=%q flushErr=%q out=%s) != persisted (cont=%v execErr=%q flushErr=%q out=%s)",
 				i, short(string(in)), sl.Cont, sl.ExecErr, sl.FlushErr, short(sl.Out), sp.Cont, sp.ExecErr, sp.FlushErr, short(sp.Out))
 			break
 		}
 		if a1 != a3 {
-			o.Fail("twin-diverge:long-lived/mixed", i, nil,
+			o.Fail("twin-diverge:long-lived/mixed", i, attrs,
 				"request %d input %s: long-lived (cont=%v execErr=%q flushErr=%q out=%s) != mixed (cont=%v execErr=%q flushErr=%q out=%s)",
 				i, short(string(in)), sl.Cont, sl.ExecErr, sl.FlushErr, short(sl.Out), sm.Cont, sm.ExecErr, sm.FlushErr, short(sm.Out))
 			break
@@ -185,4 +201,22 @@ func runC07(c *core.Ctx) *core.Outcome {
 		o.Scenario = map[string]interface{}{"long_lived": scenario(wl, nil), "persisted": scenario(wp, nil)["sessions"], "mixed": scenario(wm, nil)["sessions"]}
 	}
 	return finish(o, wl, wp, wm)
+}
+
+// nonUTF8Cached reports whether the session's cache holds a value (or last value) that is not valid UTF-8.
+func nonUTF8Cached(s *world.Sess) bool {
+	if s.Ca == nil {
+		return false
+	}
+	if !utf8.ValidString(s.Ca.LastValue) {
+		return true
+	}
+	for _, m := range s.Ca.Cache {
+		for _, v := range m {
+			if !utf8.ValidString(v) {
+				return true
+			}
+		}
+	}
+	return false
 }
